@@ -1077,6 +1077,25 @@ Definition label_or_other (s : pstate) : pstate :=
   then finish_logical_line (next_token (next_token s))
   else t_other s.
 
+(* the body of a structured type: after `class`/`record`/... and its optional parents *)
+Definition st_struct_type_body (s : pstate) : pstate :=
+  let s := finish_logical_line s in
+  let s := push_ctx (ctx CT_TypeDeclaration true P_end (L 0)) s in
+  let s := push_ctx (ctx CT_VisibilityBlock true P_visibility_block_ending (L 1)) s in
+  let s := if match cur_tt s, next_tt s with
+              | Some (RTT_Op OK_LBrack), Some (RTT_TextLiteral _) => true
+              | _, _ => false end
+           then
+             let s := take_until (fun s => match cur_tt s with Some (RTT_Op OK_RBrack) => true | _ => false end) (next_token s) in
+             finish_logical_line (set_line_type LLT_Guid (next_token s))
+           else s in
+  let s := pop_ctx (R C_structures s) in
+  let s := pop_ctx (R C_structures s) in
+  let s := next_token (finish_logical_line s) in
+  let s := simple_op_until after_semicolon
+             (keyword_consolidator (fun k => is_portability k || match k with KK_Align => true | _ => false end)) s in
+  finish_logical_line (take_until no_more_separators s).
+
 Definition st_struct_type (s : pstate) : pstate :=
   let s := next_token s in
   let s := match cur_kk s with
@@ -1095,23 +1114,7 @@ Definition st_struct_type (s : pstate) : pstate :=
   match cur_tt s with
   | Some (RTT_Keyword KK_Of) => next_token s
   | Some (RTT_Op OK_Semicolon) => s
-  | _ =>
-      let s := finish_logical_line s in
-      let s := push_ctx (ctx CT_TypeDeclaration true P_end (L 0)) s in
-      let s := push_ctx (ctx CT_VisibilityBlock true P_visibility_block_ending (L 1)) s in
-      let s := if match cur_tt s, next_tt s with
-                  | Some (RTT_Op OK_LBrack), Some (RTT_TextLiteral _) => true
-                  | _, _ => false end
-               then
-                 let s := take_until (fun s => match cur_tt s with Some (RTT_Op OK_RBrack) => true | _ => false end) (next_token s) in
-                 finish_logical_line (set_line_type LLT_Guid (next_token s))
-               else s in
-      let s := pop_ctx (R C_structures s) in
-      let s := pop_ctx (R C_structures s) in
-      let s := next_token (finish_logical_line s) in
-      let s := simple_op_until after_semicolon
-                 (keyword_consolidator (fun k => is_portability k || match k with KK_Align => true | _ => false end)) s in
-      finish_logical_line (take_until no_more_separators s)
+  | _ => st_struct_type_body s
   end.
 
 Definition st_of (s : pstate) : pstate :=
